@@ -9,6 +9,7 @@ import time
 import z3
 from . import sym
 from .sym import Unsupported, Infeasible, PyExc, Approx, simp, is_z3
+from .loopcut import PathEnd
 
 
 class Obligation:
@@ -31,6 +32,10 @@ class PathCtx:
         self.pos = 0
         self.solver = z3.Solver()
         self.solver.set('timeout', timeout_ms)
+        # quantifier-free relaxation of the path condition: used for feasibility checks (the satisfiable side of a
+        # query with quantified axioms sends z3 into model-based instantiation until its timeout)
+        self.qf = z3.Solver()
+        self.qf.set('timeout', timeout_ms)
         self._base_scopes = 0
         self.forks = []
         self.alloc = 0
@@ -114,6 +119,38 @@ class PathCtx:
                 self.solver.add(a)
                 if z3.is_quantifier(a):
                     self.quant_ids.add(a.get_id())
+                else:
+                    self.qf.add(a)
+
+    def _cvc5_unsat(self, neg):
+        """second back end for queries z3 leaves undecided: /usr/bin/cvc5 on the SMT-LIB dump (hard wall-clock kill)"""
+        import os
+        import subprocess
+        import tempfile
+        if not os.path.exists('/usr/bin/cvc5'):
+            return False
+        self._flush()
+        s2 = z3.Solver()
+        for a in self.solver.assertions():
+            s2.add(a)
+        if neg is not None:
+            s2.add(neg)
+        text = '(set-logic ALL)\n' + s2.to_smt2()
+        fd, path = tempfile.mkstemp(suffix='.smt2', dir=os.environ.get('PYVC_TMP', '/tmp'))
+        try:
+            with os.fdopen(fd, 'w') as f:
+                f.write(text)
+            try:
+                out = subprocess.run(['/usr/bin/cvc5', '--tlimit=20000', path], capture_output=True, text=True, timeout=30)
+            except subprocess.TimeoutExpired:
+                return False
+            self.cvc5_calls = getattr(self, 'cvc5_calls', 0) + 1
+            return out.stdout.strip().splitlines()[:1] == ['unsat']
+        finally:
+            try:
+                os.unlink(path)
+            except OSError:
+                pass
 
     def _refute_without_quantifiers(self, neg):
         """The solver could not decide a query that involves quantified callee-contract axioms.  Look for a
@@ -162,6 +199,12 @@ class PathCtx:
             return
         if cond is False:
             raise Infeasible()
+        if z3.is_quantifier(cond):
+            self._flush()
+            self.solver.add(cond)
+            self.quant_ids.add(cond.get_id())
+            self.wit = None
+            return
         self._add(cond, True)
 
     def _add(self, cond, val):
@@ -176,6 +219,7 @@ class PathCtx:
     def _flush(self):
         if self.pending:
             self.solver.add(*self.pending)
+            self.qf.add(*self.pending)
             self.pending = []
 
     def _wit_eval(self, cond):
@@ -201,12 +245,16 @@ class PathCtx:
                 return not f
         return None
 
-    def _check(self, *extra):
+    def _check(self, *extra, full=False):
+        """feasibility-style check.  Unless full=True it runs on the quantifier-free relaxation when quantified
+        axioms are present: `unsat` there is `unsat` of the full condition; `sat` is taken as "may be feasible"."""
         self._flush()
         t0 = time.time()
-        r = self.solver.check(*extra)
+        s = self.solver if (full or not self.quant_ids) else self.qf
+        r = s.check(*extra)
         self.solver_s += time.time() - t0
         self.nchecks += 1
+        self._last_solver = s
         return r
 
     def feasible(self):
@@ -232,7 +280,7 @@ class PathCtx:
             r = self._check()
             if r == z3.unsat:
                 raise Infeasible()
-            self.wit = self.solver.model() if r == z3.sat else None
+            self.wit = self._last_solver.model() if r == z3.sat else None
         w = self._wit_eval(cond) if self.wit is not None else None
         other_model = None
         if w is None:
@@ -277,6 +325,7 @@ class PathCtx:
                     raise Unsupported('sub-exploration budget')
                 self._flush()
                 self.solver.push()
+                self.qf.push()
                 self._base_scopes = self.solver.num_scopes()
                 self.decisions = list(prefix)
                 self.pos = 0
@@ -292,6 +341,7 @@ class PathCtx:
                 finally:
                     self.pending = []
                     self.solver.pop()
+                    self.qf.pop()
                     self._base_scopes = self.solver.num_scopes()
                 work.extend(self.forks)
         finally:
@@ -343,14 +393,16 @@ class PathCtx:
             ob = Obligation(name, 'discharged', detail=detail, solver='syntactic')
         else:
             if cond is False:
-                r = self._check()
+                r = self._check(full=True)
             else:
-                r = self._check(sym.b_not(cond))
+                r = self._check(sym.b_not(cond), full=True)
             if r == z3.unsat:
                 ob = Obligation(name, 'discharged', detail=detail)
             elif r == z3.sat:
                 ob = Obligation(name, 'refuted', model=self._small_model(cond), detail=detail,
                                 approx=approx or self.approx_false)
+            elif self._cvc5_unsat(None if cond is False else sym.b_not(cond)):
+                ob = Obligation(name, 'discharged', detail=detail, solver='cvc5')
             else:
                 m2 = None
                 if self.quant_ids:
@@ -408,7 +460,7 @@ class PathCtx:
 
     def model(self):
         if self._check() == z3.sat:
-            return self.solver.model()
+            return self._last_solver.model()
         return None
 
 
@@ -440,6 +492,9 @@ def explore(task, max_paths=200000, timeout_ms=10000, max_steps=400000, deadline
             r.extra = task(c)
             r.status = 'ok'
             r.detail = ''
+        except PathEnd:
+            r.status = 'ok'
+            r.detail = 'path ended inside a loop cut'
         except Infeasible:
             r.status = 'infeasible'
             r.detail = ''
